@@ -33,7 +33,7 @@ fn ensure_no_aslr() {
         if libc::personality(cur as libc::c_ulong | ADDR_NO_RANDOMIZE) == -1 {
             return;
         }
-        let exe = std::env::current_exe().expect("current_exe");
+        let exe = std::path::PathBuf::from("/proc/self/exe"); // survives a rebuild that replaces the binary on disk
         let args: Vec<String> = std::env::args().skip(1).collect();
         let err = Command::new(exe).args(args).env("GENSIM_REEXEC", "1").exec();
         eprintln!("HARNESS-ERROR re-exec failed: {err}");
